@@ -228,7 +228,13 @@ impl Feig {
                     }
                     return Ok(vec![receipt_no]);
                 }
-                _ => bail!(Error::UnexpectedPacket),
+                _ => {
+                    // We leave the exchange unfinished: its remaining packets must
+                    // not be read as the replies to the next command.
+                    drop(stream);
+                    self.socket.reset();
+                    bail!(Error::UnexpectedPacket)
+                }
             }
         }
 
